@@ -19,6 +19,7 @@ enum Op {
     Wait,
     WaitTimeout(u64), // ms
     WaitTimeoutExit(u64, u64), // wait_timeout(d ms) during which the child exits, at_ms after the call started (virtual time)
+    WaitInterrupted, // wait() whose first waitpid is interrupted by a signal handler (EINTR); the child exits right after
     Pid,
     ExitStatusQ,
     Terminate,
@@ -131,7 +132,9 @@ fn gen_history(rng: &mut Rng) -> Vec<Op> {
     for _ in 0..n {
         let op = match rng.below(14) {
             0 | 1 => Op::Poll,
-            2 => Op::Wait,
+            2 => {
+                if rng.chance(250) { Op::WaitInterrupted } else { Op::Wait }
+            }
             3 => {
                 if rng.chance(400) {
                     let d = *rng.pick(&[50u64, 150, 220, 500, 1000]);
@@ -223,6 +226,18 @@ fn run_history(ctx: &mut Ctx, ops: &[Op], exit_how: (u8, u8), fl: &Flags, class:
         let was_observed = observed;
         let knew = should_know;
         let mut planned = false;
+        let mut interrupted = false;
+        if let Op::WaitInterrupted = op {
+            if truth == Truth::Running && !reaped_externally && observed.is_none() {
+                // far in the virtual future: only the interrupted waitpid itself delivers it
+                crate::vclock::plan_exit(i64::MAX / 4, kid.fifo_fd, pid, exit_how.0, exit_how.1);
+                crate::plan::add(crate::plan::Rule { kind: k::WAIT4, scope: crate::plan::SCOPE_PARENT, nth: crate::plan::count(crate::plan::SCOPE_PARENT, k::WAIT4) + 1, fd: -1, act: crate::plan::ACT_FAIL, val: libc::EINTR as i64, prob: 1000 });
+                planned = true;
+                interrupted = true;
+                ctx.count("interrupted_waits", 1);
+            }
+            // (otherwise - status already known, child already dead - it is a plain wait)
+        }
         if let Op::WaitTimeoutExit(_, at) = op {
             if truth == Truth::Running && !reaped_externally {
                 let now = crate::vclock::now_ns() as i64;
@@ -257,7 +272,7 @@ fn run_history(ctx: &mut Ctx, ops: &[Op], exit_how: (u8, u8), fl: &Flags, class:
         }
         let m = run::monitored(|| match op {
             Op::Poll => format!("{:?}", p.poll()),
-            Op::Wait => format!("{:?}", p.wait().map_err(|e| e.to_string())),
+            Op::Wait | Op::WaitInterrupted => format!("{:?}", p.wait().map_err(|e| e.to_string())),
             Op::WaitTimeout(ms) | Op::WaitTimeoutExit(ms, _) => format!("{:?}", p.wait_timeout(Duration::from_millis(*ms)).map_err(|e| e.to_string())),
             Op::Pid => format!("{:?}", p.pid()),
             Op::ExitStatusQ => format!("{:?}", p.exit_status()),
@@ -324,7 +339,7 @@ fn run_history(ctx: &mut Ctx, ops: &[Op], exit_how: (u8, u8), fl: &Flags, class:
         // ---- per-operation expectations
         let expect_status: Option<Option<ExitStatus>> = match op {
             // Some(Some(s)) = must report s; Some(None) = must report "still running"; None = not a query
-            Op::Poll | Op::WaitTimeout(_) | Op::WaitTimeoutExit(..) | Op::Wait => {
+            Op::Poll | Op::WaitTimeout(_) | Op::WaitTimeoutExit(..) | Op::Wait | Op::WaitInterrupted => {
                 if let Some(s) = was_observed {
                     Some(Some(s))
                 } else if reaped_externally {
@@ -343,14 +358,15 @@ fn run_history(ctx: &mut Ctx, ops: &[Op], exit_how: (u8, u8), fl: &Flags, class:
             let want = match (op, exp) {
                 (Op::Poll, Some(s)) => format!("Some({:?})", s),
                 (Op::Poll, None) => "None".to_string(),
-                (Op::Wait, Some(s)) => format!("Ok({:?})", s),
-                (Op::Wait, None) => "<blocks>".to_string(),
+                (Op::Wait, Some(s)) | (Op::WaitInterrupted, Some(s)) => format!("Ok({:?})", s),
+                (Op::Wait, None) | (Op::WaitInterrupted, None) => "<blocks>".to_string(),
                 (_, Some(s)) => format!("Ok(Some({:?}))", s),
                 (_, None) => "Ok(None)".to_string(),
             };
             // the child exited while the call was in progress: a report of the true status and "still running"
             // (exit in the very last back-off slice) are both legitimate answers
-            let late_none_ok = exited_during && got == "Ok(None)";
+            // an interrupted wait may report the interruption as an error (it is not a status) or retry and report the truth
+            let late_none_ok = (exited_during && got == "Ok(None)") || (interrupted && got.starts_with("Err("));
             if exp.is_some() && !late_none_ok {
                 should_know = true;
             }
